@@ -1,8 +1,9 @@
 package main
 
 // The scripted upstream ("universe"): the stub answers PURELY by question
-// (lower-cased name, type, class) so that any admission history replays
-// exactly in every world. The first label of the name selects the behaviour
+// (lower-cased name, type, class) and, for the mixed-chain families only, by
+// the per-question invocation ordinal (StubRequest.Nth), so that any admission
+// history replays exactly in every world. The first label of the name selects the behaviour
 // (family), the rest only makes names distinct:
 //
 //	<fam>-<id>.u.c05.   unsigned zone
@@ -11,7 +12,19 @@ package main
 //	                    resolver would attach)
 //	<fam>-<id>.zf.c05.  signed zone used for zone-kind failure state
 //
-// Families: see answerFor.
+// Families: see universe. The mixed-chain families carry their whole script
+// in the name:
+//
+//	mt-<spec>-<id>          terminal owner
+//	mc-<spec>-<rest>        alias whose target is <rest> (another mc-… or an mt-…)
+//
+// <spec> is a string of hex digits, one per upstream invocation for that
+// question (the last digit repeats): bit 0 = AD asserted, bit 1 = RRset comes
+// with an RRSIG, bit 2 = the reply carries an Extended DNS Error, bit 3 = short
+// TTL (60 s instead of 300 s). Re-admitting one hop of a chain (after expiry or
+// a purge) therefore yields a hop whose header bits, signatures, EDE and age
+// differ from its neighbours'. Terminal markers embed the ordinal, so a reply
+// shows which admission each hop came from.
 
 import (
 	"context"
@@ -164,6 +177,49 @@ func signedNegative(m *dns.Msg, zone string, rcode int, proofs ...dns.RR) {
 	for _, p := range proofs {
 		m.Ns = append(m.Ns, p, fakeSig(p, zone))
 	}
+}
+
+// mixedAttr is the attribute nibble of a mixed-chain owner for one invocation.
+type mixedAttr struct{ ad, signed, ede, short bool }
+
+func (a mixedAttr) ttl() uint32 {
+	if a.short {
+		return 60
+	}
+	return posTTL
+}
+
+// mixedAttrs decodes spec for the nth (1-based) invocation.
+func mixedAttrs(spec string, nth int) (mixedAttr, bool) {
+	if spec == "" {
+		return mixedAttr{}, false
+	}
+	i := nth - 1
+	if i < 0 {
+		i = 0
+	}
+	if i >= len(spec) {
+		i = len(spec) - 1
+	}
+	c := spec[i]
+	var v int
+	switch {
+	case c >= '0' && c <= '9':
+		v = int(c - '0')
+	case c >= 'a' && c <= 'f':
+		v = int(c-'a') + 10
+	default:
+		return mixedAttr{}, false
+	}
+	return mixedAttr{ad: v&1 != 0, signed: v&2 != 0, ede: v&4 != 0, short: v&8 != 0}, true
+}
+
+// mixedSplit splits "<spec>-<rest>" (what follows the family prefix).
+func mixedSplit(id string) (spec, rest string) {
+	if i := strings.IndexByte(id, '-'); i >= 0 {
+		return id[:i], id[i+1:]
+	}
+	return id, ""
 }
 
 func apexNSEC(zone string) dns.RR {
@@ -332,6 +388,50 @@ func universe(_ context.Context, req *stack.StubRequest) *stack.StubReply {
 			m.Extra = append(m.Extra, stack.MarkerRR(6, "ns."+zone, dns.TypeA, posTTL))
 		} else {
 			negative(m, zone, dns.RcodeSuccess)
+		}
+
+	// ---------------- mixed chains (per-invocation attributes) ----------------
+	case "mt":
+		spec, _ := mixedSplit(id)
+		at, ok := mixedAttrs(spec, req.Nth)
+		if !ok {
+			negative(m, zone, dns.RcodeNameError)
+			break
+		}
+		m.AuthenticatedData = at.ad
+		gen := uint32(req.Nth)
+		if gen > 200 {
+			gen = 200
+		}
+		if rr := stack.MarkerRR(100+gen, lname, q.Qtype, at.ttl()); rr != nil {
+			m.Answer = []dns.RR{rr}
+			if at.signed {
+				m.Answer = append(m.Answer, fakeSig(rr, zone))
+			}
+		} else {
+			negative(m, zone, dns.RcodeSuccess)
+		}
+		if at.ede {
+			rep.EDE = &dns.EDNS0_EDE{InfoCode: dns.ExtendedErrorCodeStaleAnswer, ExtraText: fmt.Sprintf("c05 mt n%d", gen)}
+		}
+
+	case "mc":
+		spec, rest := mixedSplit(id)
+		at, ok := mixedAttrs(spec, req.Nth)
+		if !ok || !(strings.HasPrefix(rest, "mc-") || strings.HasPrefix(rest, "mt-")) {
+			negative(m, zone, dns.RcodeNameError)
+			break
+		}
+		// the alias only: the cache chases the target itself, so every hop is
+		// admitted (and later re-admitted) as an entry of its own
+		m.AuthenticatedData = at.ad
+		c := &dns.CNAME{Hdr: dns.RR_Header{Name: lname, Rrtype: dns.TypeCNAME, Class: dns.ClassINET, Ttl: at.ttl()}, Target: rest + "." + zone}
+		m.Answer = []dns.RR{c}
+		if at.signed {
+			m.Answer = append(m.Answer, fakeSig(c, zone))
+		}
+		if at.ede {
+			rep.EDE = &dns.EDNS0_EDE{InfoCode: dns.ExtendedErrorCodeDNSSECIndeterminate, ExtraText: fmt.Sprintf("c05 mc n%d", req.Nth)}
 		}
 
 	// ---------------- signed families ----------------
